@@ -392,6 +392,8 @@ def run_logstore(wd, gpath, T, extra):
 
 
 def c20_violations(res):
+    if res.get("fails_dropped"):
+        raise dv.ToolError("the log store walker dropped %d failing observations" % res["fails_dropped"])
     viol = []
     for f in res["fails"]:
         for m, c in c20_judge(f):
@@ -617,6 +619,7 @@ def check_c20(tier):
                                            "images_inside_a_call": fcp["inside"]},
         "graph_edges_covered_by_walks": res["edges_covered_by_walks"],
         "failing_observations_by_signature": res["signature_counts"],
+        "file_observations_differing_only_in_missing_purge_boundary": res.get("file_purge_boundary_only_observations", 0),
         "failing_by_cause": causes, "shortest_failing_by_cause": first,
         "known_findings_hit": sorted({"%s/%s/%s" % (k["property"], k["monitor"], k["cause"]) for k, _ in known_hits}),
         "exhaustive": False,
@@ -905,7 +908,10 @@ def run_crashlog(wd, gpath, T, engine, extra=()):
            "--threads", str(THREADS), "--seed", str(dv.seed()), "--scratch", os.path.join(wd, "scratch"), "--out", out]
     dv.run(cmd + list(extra), timeout=3000)
     with open(out) as f:
-        return json.load(f)
+        res = json.load(f)
+    if res.get("findings_dropped"):
+        raise dv.ToolError("the crash walker dropped %d findings" % res["findings_dropped"])
+    return res
 
 
 def _c18_op(o):
